@@ -11,9 +11,15 @@
 #    plus teardown (close/reset) from any state to Closed.
 #  * the Stream object is handed out only after the open completed (Manager.OpenStream does not expose it), so
 #    Read/Write/CloseWrite are not issued on a stream that is still Opening.
+#  * "tears down only the addressed stream" includes the PENDING OPENS of other streams: a close / reset / data frame
+#    for an id that is not established (also one numerically equal to another stream's request id) changes nothing.
+#  * exit side (ExitConn.tla, checks/_exitconn.py): a FIN-flagged frame's payload reaches the destination before the
+#    destination socket is half-closed; a chunk (even an empty one) after the FIN cannot be written and closes the
+#    connection (as the code does); the handler closing the connection when the DESTINATION half-closes is modelled as
+#    the code does it and not judged.
 # A replay mismatch is a transition of the real code that the specification does not have; it is reported as a
 # violation, named after the deviation (relation with Dev = {d}) that explains it, or "unexplained".
-import vf, _replay as R, _stream as S
+import vf, _replay as R, _stream as S, _exitconn as E
 
 
 def describe(mm):
@@ -28,7 +34,7 @@ def describe(mm):
 
 
 def run(ctx):
-    c, ideal, caught = S.model(ctx)
+    c, ideal, caught, exit_res = S.model(ctx, E.jobs(ctx))
     binpath = S.build(ctx)
     doc, npaths, nnodes, nedges, nsteps = R.compact_paths(ideal.edges, S.is_init)
     ctx.log("path cover: %d paths, %d steps, %d states, %d transitions" % (npaths, nsteps, nnodes, nedges))
@@ -72,6 +78,8 @@ def run(ctx):
                     S.DEV_CAUGHT_BY[dev] + " violated:", " ".join("%s(%s)" % (x.get("act"), x.get("s", "")) for x in
                                                                  art["counterexample_of_deviation"]["schedule"]), what)
             ctx.finding("Stream:%s" % cls, what, art)
+    # ---- exit side: the same half-close rules on a real exit.Handler with loopback destinations (ExitConn.tla) -------
+    exit_cov = E.run(ctx, explained, exit_res)
     sample = R.expand_path(doc, len(doc["paths"]) // 2)
     ctx.evidence("model_checking",
                  assumptions=["bounded model: 2 streams, %d frame(s) with every data/FIN combination for either stream, "
@@ -80,8 +88,15 @@ def run(ctx):
                               "one frame-handler thread (one peer connection); Stream.PushData, HandleRemoteFinWrite, "
                               "Close are each one step (no scheduling point inside them)",
                               "Write = the CanWrite guard used by every writer of the repository (the stream package has no Write)",
-                              "replay observes the read buffer by its length; contents are checked by the chunks the reads return"],
-                 states=ideal.distinct, transitions=nedges, traces_validated_against_impl=npaths, exhaustive=True,
+                              "replay observes the read buffer by its length; contents are checked by the chunks the reads return",
+                              "exit side (ExitConn.tla): 2 connections of one exit.Handler opened by real STREAM_OPENs to "
+                              "loopback TCP destinations with real session keys; %d ingress frames (no payload / encrypted "
+                              "empty chunk / data, with and without FIN), %d chunk(s) per destination; the handler closing the "
+                              "whole connection when the destination half-closes is modelled as the code does it" % (
+                                  exit_cov["constants"]["MaxFrames"], exit_cov["constants"]["MaxDest"])],
+                 states=ideal.distinct + exit_cov["states"], transitions=nedges + exit_cov["transitions"],
+                 traces_validated_against_impl=npaths + exit_cov["paths"], exhaustive=True,
+                 stream_level={"states": ideal.distinct, "transitions": nedges, "paths": npaths}, exit_level=exit_cov,
                  replayed_paths=R.total(summ, "paths"), replayed_steps=R.total(summ, "steps"), replay_mismatches=len(mism),
                  blocked_reads_observed=R.total(summ, "blocked_reads"),
                  steps_with_handler_at_gate=R.total(summ, "steps_with_handler_at_gate"),
